@@ -63,6 +63,9 @@ def run(check: Check, repo: Repo, tier: str) -> None:
     check.floor("MUTABLE-DEFAULT", 3, "functions with default parameter values in validation/")
     V.default_is_none(check, repo, [repo.func('validation.validate', 'validate'), repo.func('validation.validate', 'validate_sdl')])
     from rules import language_rules as L
+    # 'messages unchanged by reprinting': the printer loses no field on any return path (shared with C08)
+    L.printer_coverage(check, repo, model)
+    L.printer_per_return(check, repo, model)
     L.result_filter(check, repo)
     L.parallel_returns(check, repo)
     L.optional_truthiness(check, repo, ['validation.validate'])
